@@ -7,6 +7,8 @@ import (
 	"math/rand"
 	"sort"
 
+	metav1 "k8s.io/apimachinery/pkg/apis/meta/v1"
+
 	"metacontroller/pkg/apis/metacontroller/v1alpha1"
 	env "metacontroller/pkg/verifenv"
 	sim "metacontroller/pkg/verifsim"
@@ -30,6 +32,8 @@ type scenario struct {
 	// NoTemplateLabels leaves spec.template.metadata.labels off the parent. With a user-supplied
 	// selector metacontroller labels ControllerRevisions from that field (Deployment convention).
 	NoTemplateLabels bool `json:"noTemplateLabels,omitempty"`
+	// ParentSelector gives the controller a labelSelector (managed-by=<id>) and the parent that label.
+	ParentSelector bool `json:"parentSelector,omitempty"`
 }
 
 type kindCfg struct {
@@ -39,10 +43,11 @@ type kindCfg struct {
 }
 
 type kidCfg struct {
-	Kind  string `json:"kind"`
-	Name  string `json:"name"`
-	NS    string `json:"ns,omitempty"`
-	Value string `json:"value"`
+	Kind      string                 `json:"kind"`
+	Name      string                 `json:"name"`
+	NS        string                 `json:"ns,omitempty"`
+	Value     string                 `json:"value"`
+	MetaExtra map[string]interface{} `json:"metaExtra,omitempty"`
 }
 
 // initObj is one pre-existing object, described by its role.
@@ -124,6 +129,9 @@ func (sc *scenario) labels() map[string]string { return map[string]string{"app":
 
 func (sc *scenario) worldCfg() worldCfg {
 	cfg := worldCfg{ID: sc.ID, Parent: sc.parentInfo(), GenerateSelector: sc.GenerateSelector, FinalizeHook: sc.Finalize, SSA: sc.SSA, FieldPaths: sc.FieldPaths}
+	if sc.ParentSelector {
+		cfg.ParentSelector = &metav1.LabelSelector{MatchLabels: map[string]string{"managed-by": sc.ID}}
+	}
 	for _, k := range sc.Kinds {
 		cc := childCfg{Info: kindInfo(k.Kind)}
 		if k.Method == "<nil>" {
@@ -152,6 +160,9 @@ func (sc *scenario) method(kind string) string {
 // parentObject renders the parent as the workload creates it.
 func (sc *scenario) parentObject(kids []kidCfg, rev, extra string) sim.Obj {
 	p := sim.NewObject(sc.parentInfo(), sc.ns(), sc.parentName())
+	if sc.ParentSelector {
+		sim.SetLabels(p, map[string]string{"managed-by": sc.ID})
+	}
 	spec := sim.Obj{}
 	if !sc.GenerateSelector {
 		ml := sim.Obj{}
@@ -178,7 +189,11 @@ func (sc *scenario) parentObject(kids []kidCfg, rev, extra string) sim.Obj {
 	}
 	var ks []interface{}
 	for _, k := range kids {
-		ks = append(ks, sim.KidSpec(kindInfo(k.Kind), sc.childNSExplicit(k), k.Name, k.Value))
+		ko := sim.KidSpec(kindInfo(k.Kind), sc.childNSExplicit(k), k.Name, k.Value)
+		if k.MetaExtra != nil {
+			ko["metaExtra"] = sim.DeepCopy(k.MetaExtra)
+		}
+		ks = append(ks, ko)
 	}
 	spec["kids"] = ks
 	if sc.Finalize {
@@ -334,19 +349,47 @@ func (r *scenarioRun) childGVRs() []sim.ResourceInfo {
 	return out
 }
 
-func startScenario(sc *scenario) (*scenarioRun, error) {
+// prepareScenario builds cluster, parent and initial contents; the controller is not started yet.
+func prepareScenario(sc *scenario) *scenarioRun {
 	w := newWorld(sc.worldCfg())
 	r := &scenarioRun{sc: sc, w: w, kids: append([]kidCfg(nil), sc.Kids...), rev: "r1", extra: "e1"}
 	r.parent = w.sim.MustCreate(sc.parentInfo().GVR(), sc.parentObject(r.kids, r.rev, r.extra))
-	// look-alike parent owning look-alike children (a second parent of the same kind)
 	for _, io := range sc.Initial {
 		r.createInitial(io)
 	}
-	if err := w.start(); err != nil {
-		w.close()
+	return r
+}
+
+func startScenario(sc *scenario) (*scenarioRun, error) {
+	r := prepareScenario(sc)
+	if err := r.w.start(); err != nil {
+		r.w.close()
 		return nil, err
 	}
 	return r, nil
+}
+
+// asCreatedByMC renders a child the way metacontroller's dynamic apply would have created it for
+// the given desired state: last-applied record, controller reference, matching labels.
+func (r *scenarioRun) asCreatedByMC(k kidCfg, value string) sim.Obj {
+	desired := r.desiredChild(k, value)
+	if r.sc.GenerateSelector {
+		sim.SetLabels(desired, r.matchingLabels())
+	}
+	obj := sim.DeepCopy(desired)
+	if kindInfo(k.Kind).Namespaced {
+		// the last-applied record carries the defaulted namespace too
+		sim.SetNested(desired, r.sc.childNS(k), "metadata", "namespace")
+		sim.SetNested(obj, r.sc.childNS(k), "metadata", "namespace")
+	}
+	setLastApplied(obj, desired)
+	// what the hook said about system-populated metadata is recorded as applied, but the server
+	// keeps its own values
+	for f := range k.MetaExtra {
+		delete(obj["metadata"].(map[string]interface{}), f)
+	}
+	sim.AddOwner(obj, r.parent, true)
+	return obj
 }
 
 func (r *scenarioRun) desiredChild(k kidCfg, value string) sim.Obj {
@@ -358,6 +401,9 @@ func (r *scenarioRun) desiredChild(k kidCfg, value string) sim.Obj {
 		}
 	}
 	kid := sim.KidSpec(kindInfo(k.Kind), r.sc.childNS(k), k.Name, value)
+	if k.MetaExtra != nil {
+		kid["metaExtra"] = sim.DeepCopy(k.MetaExtra)
+	}
 	return sim.BuildChild(kid, labels, r.rev, r.extra)
 }
 
